@@ -258,6 +258,10 @@ def configs(tier):
     for kind in ("mvonly", "mvrmv", "dense", "add", "mul", "matmul", "adjoint", "herm"):
         add("products/%s/sq/batchA2_x1" % kind, products, kind=kind, shape="sq", ba=(2,), bx=(1,))
         add("products/%s/sq/batchA_x2" % kind, products, kind=kind, shape="sq", ba=(), bx=(2,))
+    # the operand has fewer (non-singleton) batch dimensions than the operator
+    for kind in ("mvonly", "mvrmv", "mvmm", "add", "mul", "adjoint", "herm_mv", "dense"):
+        add("products/%s/sq/batchA22_x2" % kind, products, kind=kind, shape="sq", ba=(2, 2), bx=(2,))
+    add("products/mvonly/wide/batchA22_x2", products, kind="mvonly", shape="wide", ba=(2, 2), bx=(2,))
     add("products/mvonly/wide/batchA2_x21", products, kind="mvonly", shape="wide", ba=(2,), bx=(2, 1))
     # operands of a binary expression with different batch shapes (either one the more batched)
     for kind in ("add", "sub", "matmul", "add_dense"):
